@@ -1,5 +1,5 @@
 (* C06 — proofs about models/AtomicWrite.v *)
-From Coq Require Import List NArith Bool Lia ZifyBool ZifyN.
+From Coq Require Import List NArith Bool Lia ZifyBool ZifyN Arith PeanoNat Compare_dec.
 Import ListNotations.
 Require Import V.lib.Bytes V.gen.CommitOrder V.models.AtomicWrite.
 Open Scope N_scope.
@@ -628,3 +628,89 @@ Lemma source_shape_facts :
   checkpoint_is_atomic_write_file = true /\ write_file_is_write_chown = true /\ commit_is_commit = true /\
   tmp_is_target_plus_suffix_excl = true /\ unsafe_io_needs_test_binary = true.
 Proof. repeat split. Qed.
+
+(* ------------------------------------------------------------------ error exits of commit *)
+Lemma commit_ops_f_all : forall c i tmp t k, (length (active_commit_calls c) <= k)%nat ->
+  commit_ops_f c i tmp t k = commit_ops c i tmp t.
+Proof.
+  intros c i tmp t k H. unfold commit_ops_f. rewrite firstn_all2 by exact H.
+  assert (E : Nat.ltb k (length (active_commit_calls c)) = false) by (apply Nat.ltb_ge; exact H).
+  rewrite E, app_nil_r. unfold commit_ops, active_commit_calls.
+  induction commit_calls as [|gc l IH]; [reflexivity|]. cbn [filter flat_map].
+  destruct (guard_on c false (fst gc)); cbn [flat_map]; rewrite IH; reflexivity.
+Qed.
+
+(* Every error exit of commit (with snapdUnsafeIO false): whichever call fails, the operations performed up to there
+   plus the caller's clean-up respect the discipline; nothing is published unless the rename itself had succeeded
+   (only the final directory fsync can fail after it), in which case what is published is the complete content. *)
+Theorem commit_error_exits : forall (t tmp : name) (s : st) (i : ino) (nd : inode) (ch mt : bool) (k : nat),
+  name_eqb tmp t = false -> dlookup (vdir s) tmp = Some i -> ilookup (inodes s) i = Some nd ->
+  let tr := commit_ops_f (mkCfg false ch mt) i tmp t k in
+  safe_from t s tr = true /\
+  (versions t s tr = [] \/ versions t s tr = [Some (synced nd ++ unsynced nd)]) /\
+  (existsb (is_rename_onto t) tr = false -> versions t s tr = []).
+Proof.
+  intros t tmp s i nd ch mt k Hn Hv Hi tr.
+  destruct (le_lt_dec (length (active_commit_calls (mkCfg false ch mt))) k) as [L|L].
+  - unfold tr. rewrite (commit_ops_f_all _ i tmp t k L).
+    destruct (commit_safe_shape t tmp s i nd ch mt Hn Hv Hi) as (A & B & p & C & _). cbv zeta in A, B, C.
+    split; [exact A|]. split; [right; exact B|]. intros E. rewrite C in E.
+    rewrite existsb_app in E. cbn [existsb is_rename_onto] in E. rewrite name_eqb_refl in E.
+    rewrite orb_true_r in E. discriminate.
+  - unfold tr. clear tr.
+    destruct ch, mt; cbv [active_commit_calls commit_calls filter guard_on unsafe_io do_chown do_mtime negb fst snd length] in L;
+      repeat (destruct k as [|k]; [|]); try (exfalso; lia);
+      cbv [commit_ops_f active_commit_calls commit_calls filter firstn flat_map guard_on unsafe_io do_chown do_mtime negb fst snd
+           commit_call_ops app length Nat.ltb Nat.leb existsb call_is_rename orb];
+      cbn [safe_from op_safe versions step andb]; rewrite ?Hi; unfold upd_inode; cbn [vdir inodes andb pend ddir next];
+      rewrite ?Hn, ?name_eqb_refl, ?Hv; cbn [negb andb dlookup]; rewrite ?Hn, ?name_eqb_refl, ?Hv; cbn [negb andb];
+      unfold clean; cbn [ilookup inodes]; rewrite ?N.eqb_refl; cbn [unsynced is_nil_b andb];
+      (split; [reflexivity|]);
+      (split; [try (left; reflexivity); right; unfold vread; cbn [ilookup inodes]; rewrite ?N.eqb_refl; cbn; rewrite ?app_nil_r; reflexivity|]);
+      cbn [existsb is_rename_onto orb app]; rewrite ?Hn, ?name_eqb_refl; cbn [orb]; intros E; try discriminate E; reflexivity.
+Qed.
+
+Lemma no_rename_in_writes : forall t i chunks, existsb (is_rename_onto t) (map (Write i) chunks) = false.
+Proof. intros t i; induction chunks as [|d c IH]; [reflexivity | exact IH]. Qed.
+
+(* AtomicWriteChown with any error exit of commit (k = number of commit calls that succeed before one fails): at every
+   crash point the target holds the complete old or the complete new content, and if the rename was not reached the
+   target is untouched: complete old content (or still absent) in every crash outcome. *)
+Theorem atomic_write_error_exits : forall (t tmp : name) (s0 : st) (old : option bytes) (chunks : list bytes) (ch mt : bool) (k : nat),
+  init_ok t s0 old -> name_eqb tmp t = false ->
+  let tr := write_ops_f (mkCfg false ch mt) (next s0) tmp t chunks k in
+  safe_from t s0 tr = true /\
+  (forall p q, tr = p ++ q -> forall keep cut, In (crash_read (run s0 p) keep cut t) [old; Some (concat chunks)]) /\
+  (existsb (is_rename_onto t) tr = false ->
+   forall p q, tr = p ++ q -> forall keep cut, crash_read (run s0 p) keep cut t = old).
+Proof.
+  intros t tmp s0 old chunks ch mt k HI Hn tr.
+  pose proof HI as (Hp0 & Hd0 & Hf0).
+  set (i := next s0) in *.
+  set (s1 := step s0 (Creat tmp)).
+  assert (E1 : ilookup (inodes s1) i = Some (mkInode [] [])) by (cbn; unfold i; rewrite N.eqb_refl; reflexivity).
+  destruct (run_writes i chunks s1 [] [] E1) as (Av & Ad & Ap & An & Ai). cbn [app] in Ai.
+  set (s2 := run s1 (map (Write i) chunks)) in *.
+  assert (Hv2 : dlookup (vdir s2) tmp = Some i) by (rewrite Av; cbn; rewrite name_eqb_refl; reflexivity).
+  destruct (commit_error_exits t tmp s2 i _ ch mt k Hn Hv2 Ai) as (C1 & C2 & C3). cbv zeta in C1, C2, C3. cbn [synced unsynced app] in C2.
+  assert (Pub : published t s1 i = false).
+  { unfold published; cbn [s1 step pend ddir]. rewrite Hp0; cbn [app existsb]. unfold points_to; cbn [fst snd]. rewrite Hn; cbn [andb orb].
+    destruct (dlookup (ddir s0) t) as [j|] eqn:Ej; [|reflexivity]. cbn in Hd0. destruct Hd0 as (c & Hc & _).
+    apply Hf0 in Hc. apply N.eqb_neq. unfold i; lia. }
+  assert (S : safe_from t s0 tr = true).
+  { unfold tr, write_ops_f. cbn [safe_from op_safe]. rewrite Hn; cbn [negb andb]. fold s1. rewrite safe_from_app.
+    rewrite safe_writes by exact Pub. exact C1. }
+  assert (Vs : versions t s0 tr = versions t s2 (commit_ops_f (mkCfg false ch mt) i tmp t k)).
+  { unfold tr, write_ops_f. rewrite versions_cons; cbn [op_versions app]. fold s1. rewrite versions_app, versions_writes. reflexivity. }
+  assert (Sub : forall p q, tr = p ++ q -> forall keep cut,
+            In (crash_read (run s0 p) keep cut t) (old :: versions t s0 tr)).
+  { intros p q Hpq keep cut. pose proof (shape_safe t s0 old tr HI S p q Hpq keep cut) as H.
+    destruct H as [H|H]; [left; exact H|right]. rewrite Hpq, versions_app. apply in_or_app; left; exact H. }
+  split; [exact S | split].
+  - intros p q Hpq keep cut. specialize (Sub p q Hpq keep cut). rewrite Vs in Sub.
+    destruct C2 as [C2|C2]; rewrite C2 in Sub; cbn in Sub |- *; tauto.
+  - intros NR p q Hpq keep cut. specialize (Sub p q Hpq keep cut). rewrite Vs in Sub.
+    assert (NR' : existsb (is_rename_onto t) (commit_ops_f (mkCfg false ch mt) i tmp t k) = false).
+    { unfold tr, write_ops_f in NR. cbn [existsb is_rename_onto] in NR. rewrite existsb_app, no_rename_in_writes in NR. exact NR. }
+    rewrite (C3 NR') in Sub. destruct Sub as [H|[]]. symmetry; exact H.
+Qed.
